@@ -189,8 +189,15 @@ func decryptPayload(keys [][]byte, msg []byte, data []byte) ([]byte, error) {
 	for _, key := range keys {
 		plain, err := decryptMessage(key, msg, data)
 		if err == nil {
-			// Remove the PKCS7 padding for vsn 0
+			// Remove the PKCS7 padding for vsn 0. The version byte is not
+			// covered by the authentication tag, so a message that
+			// authenticates may still not be padded at all: validate the
+			// padding instead of trusting it.
 			if vsn == 0 {
+				n := len(plain)
+				if n == 0 || plain[n-1] == 0 || int(plain[n-1]) > n || int(plain[n-1]) > aes.BlockSize {
+					return nil, fmt.Errorf("invalid padding in decrypted payload")
+				}
 				return pkcs7decode(plain, aes.BlockSize), nil
 			} else {
 				return plain, nil
